@@ -100,7 +100,7 @@ def run(ctx, out):
                 'collect_errors, from_data, convert, Cls.from_data, from_json/from_yaml on streams; plus a fixed list of '
                 'unsupported annotations that must fail at build time with TypeError/UnsupportedAnnotation. '
                 'Non-trivial = non-leaf type; distinct by (type term, value).')
-    convprop.run(ctx, out, PROP, monitor, cfg={'weights': {'tagged': 1.6, 'cond': 1.8, 'dict': 1.8, 'class': 2.0, 'enum': 1.0, 'std': 2.5}})
+    convprop.run(ctx, out, PROP, monitor, cfg={'weights': {'tagged': 1.6, 'cond': 1.8, 'dict': 1.8, 'class': 2.0, 'enum': 1.0, 'std': 2.5}, 'enum_tuple': True})
     n = 0
     for label, ty in unsupported_types():
         n += 1
